@@ -29,18 +29,22 @@ RULE = (
     "is mapped by the harness) and G(T x) is compared with M_T(G(x)), M_T composed from vf.refmodel (Rodrigues): corner "
     "positions per block, projection labels, curved edges by location (arc kinds: third point on the image circle, on "
     "the same side of the chord; spline/polyLine/curve: control points; project: labels), Edge.length x |ratio|, "
-    "Angle.axis as a direction. After an odd number of mirrors the block numbering may be kept or have bottom and top "
-    "swapped (Operation.mirror), edges are compared as geometry between the matched end points. copy cells: G(copy) = "
+    "Angle.axis as a direction. When a mirror is involved the block numbering may be kept or have bottom and top "
+    "swapped (Operation.mirror), edges are compared as geometry between the matched end points (control points in "
+    "the order of the matched direction). All discrepancies of a case are collected; one that the facts pin to a "
+    "separately listed root cause (tag `cause`) is raised only if nothing else is wrong. copy cells: G(copy) = "
     "G(x), transforming the copy leaves G(x) unchanged, the transformed copy obeys the same law, both write the same "
-    "dict (modulo sphere_<id> names) with the same set of undefined geometry references. Non-trivial: every step away "
-    "from the identity with origin != 0 and axis/normal neither unit nor axis-aligned (translations: d != 0) and the "
-    "entity carries a curved edge (where its class can); distinct = distinct generated case."
+    "dict (modulo sphere_<id> names) with the same set of undefined geometry references. Non-trivial: no step is the "
+    "identity, at least one step has origin != 0 and an axis/normal that is non-unit or not axis-aligned (translation: "
+    "d != 0; scale: ratio != 1 about origin != 0), and the entity carries a curved or projected edge (where its class "
+    "can: not Box, Grid, MappedSketch, Shell, bare Face); distinct "
+    "= distinct generated case. Cases that only reproduce a listed known finding are not counted at all."
 )
 ASSUMPTIONS = [
     f"positions: |p' - M p| <= {x.POS_TOL} * (1 + largest coordinate) (measured worst case 4e-14 relative)",
     f"lengths: relative {x.LEN_TOL} (library TOL); arcs: third point within {x.ARC_TOL} * radius of the image circle",
     f"OnCurve edges: control points within {x.CURVE_TOL} * chord, length within {10 * x.CURVE_TOL} relative (their end "
-    "parameters come from scipy L-BFGS-B on a non-smooth objective; measured worst case 6e-6 / 3e-5)",
+    "parameters come from scipy L-BFGS-B on a non-smooth objective; measured worst case 9.2e-9 / 1.4e-8 over 3000 cases)",
     "scale ratios are positive: 0.2..5 for one step, 0.5..2 per step in compositions; features stay >= 100 x the library's "
     "absolute TOL = 1e-7 (cases whose smallest arc or vertex distance would come closer are counted, not judged)",
     "default origins (origin=None) are used only for classes that inherit ElementBase.rotate/scale (documented: the "
@@ -64,7 +68,7 @@ def base_facts(ent: x.Ent, tkind: str, case) -> dict:
 
 def tf_facts(facts: dict, ap: x.Applied) -> dict:
     out = dict(facts)
-    out.update(parity=ap.parity, normals_unit=ap.normals_unit, default_origin=ap.default_origin, ratio=ap.s)
+    out.update(parity=ap.parity, mirrors=ap.mirrors, normals_unit=ap.normals_unit, default_origin=ap.default_origin, ratio=ap.s)
     return out
 
 
@@ -198,11 +202,14 @@ def make_check_copy(ent: x.Ent):
             if _norm_names(t0) != _norm_names(tc):
                 a, b = _norm_names(t0).splitlines(), _norm_names(tc).splitlines()
                 k = next((i for i in range(min(len(a), len(b))) if a[i] != b[i]), min(len(a), len(b)))
-                raise Violation("copy-writes-different-mesh", f"first differing line {k}: {a[k:k + 1]} vs {b[k:k + 1]}", **facts)
+                discs.append(x.Disc("copy-writes-different-mesh", f"first differing line {k}: {a[k:k + 1]} vs {b[k:k + 1]}",
+                                    stage="write"))
             u0, uc = _undefined(t0), _undefined(tc)
             if u0 != uc:
-                raise Violation("copy-undefined-geometry", f"geometry referenced but not defined: original {u0}, copy {uc}",
-                                undefined=[u for u in uc if u not in u0][:3], **facts)
+                new = [u for u in uc if u not in u0]
+                only_spheres = bool(new) and all(re.fullmatch(r"sphere_\d+", u) for u in new) and len(uc) == len(u0) + len(new)
+                discs.append(x.Disc("copy-undefined-geometry", f"geometry referenced but not defined: original {u0}, copy {uc}",
+                                    cause="id-based-geometry-name" if only_spheres else None, undefined=new[:3], stage="write"))
 
         # independence: transform the copy, look at the original again; the transformed copy obeys the law
         ap = x.apply_tf(cp, tf, facts)
@@ -451,6 +458,6 @@ CELLS.append(Cell("C09/helpers/functions", helper_case(), check_functions, 150, 
 for _name, _ent in ENTS.items():
     for _tk in ALL_TK:
         _check = make_check_copy(_ent) if _tk == "copy" else make_check_tf(_ent, _tk)
-        _q = _ent.quick if _tk != "copy" else max(3, _ent.quick // 2)
+        _q = _ent.quick if _tk != "copy" else max(2, _ent.quick // 2)
         CELLS.append(Cell(f"C09/{_name}/{_tk}", mesh_case(_ent, _tk), _check, _q, _q * THOROUGH_X,
                           f"{_ent.family} {_name}, {_tk}: G(T x) = M_T G(x) after Mesh.assemble()"))
